@@ -15,6 +15,7 @@ agents on the properties with the largest behaviour space, each told which chang
 used for its property. Round 3: 12 more (C01 C02 C06 C07 C11 C12 C13 C15 C16 C17 C19 C20), each told
 the titles of the changes already used. Round 4: 8 more (C03 C04 C05 C08 C09 C10 C14 C18). Round 5: 11 more
 (C01 C02 C06 C07 C11 C12 C13 C15 C16 C19 C20). Round 6: 9 more (C03 C04 C05 C08 C09 C10 C14 C17 C18).
+Round 7: 10 more (C06 C07 C08 C09 C11 C12 C13 C18 C19 C20), each told to find a mechanism unlike all earlier ones.
 Every returned change was re-confirmed in a new scratch worktree by
 `tools/confirm_seed.sh` / `confirm_seed_unit.sh` (patch applies, 33+9 tests pass with it, the
 demonstration fails with it and passes without it; for the two memory-ordering changes the
@@ -29,9 +30,9 @@ the same change independently (C02/C03, C06/C07, C08/C11).
 for n,p,needs,c in rows:
     new+=f"| {n} | {p} | {needs.replace('|','/')} | {c} |\\n".replace('\\n','\n')
 new+='''
-All 73 are caught now, on every run, by the quick tier of the property they break. **Twenty-five
+All 83 are caught now, on every run, by the quick tier of the property they break. **Thirty
 were missed when first confirmed** (eleven of rounds 1-2, seven of round 3, two of round 4, four of
-round 5, one of round 6) and led to strengthening:
+round 5, one of round 6, five of round 7) and led to strengthening:
 
 * *C01-no-fold-after-normalize* (only U+0130 is affected) and *R2-C14-std-is-uppercase* (final
   sigma, long s, micro sign, title-case digraphs): hand-picked alphabets cannot anticipate which
@@ -116,6 +117,15 @@ round 5, one of round 6) and led to strengthening:
   subject call of that phase is caught now and a panic on a fresh matcher is a violation of its own.
   *R6-C08-eager-alloc-store* uses `AtomicPtr::store`, which the loom shim did not offer (the check
   would not have built); the shim now covers the whole std API of the three atomic types.
+* Round 7: *R7-C11-dealloc-needs-drop-skips-columns* (every history is now also run with a plain
+  `u32` item type; only the column-storage accounting applies to it), *R7-C08-count-truncates-
+  before-clamp* (reservation-overflow cases: two or three over-reporting batches that push the
+  reservation counter past 2^32; count monotone, >= completed pushes, published items readable),
+  *R7-C12-cancelled-cleared-run-skips-reset* (family **RE**: an edit after the restart, before or
+  after the first tick; the first attempt at this family still missed the change because the new
+  stream's matching indices were a superset of the old stream's - the item sets of the two streams
+  are now complementary), *R7-C13-notify-only-on-progress* (event loop around a held writer),
+  *R7-C18-cancel-lost-in-sequential-branch* (half-sorted shapes).
 * Confirming *C13-no-retry-for-zero-timeout* exposed a harness bug (a parked thread of a
   deadlocked execution kept a global lock; the next execution stalled and the run ended as a
   machinery failure instead of a verdict) - fixed by a pool of reference matchers.
